@@ -10,6 +10,7 @@ import (
 	"os/exec"
 	"path/filepath"
 	"strings"
+	"syscall"
 
 	"github.com/benhoyt/goawk/interp"
 	"github.com/benhoyt/goawk/parser"
@@ -792,6 +793,7 @@ func c13Run(c *core.Ctx) {
 	c13FailingStream(c, bound)
 	c13EmptyOutput(c, bound)
 	c13TwoNames(c)
+	c13OpenFaults(c)
 	c13Faults(c)
 }
 
@@ -913,6 +915,128 @@ func c13TwoNames(c *core.Ctx) {
 			if writes >= 2 && c.Mine() && !c.Expired() {
 				c.Add("states", 1)
 				c13TwoEval(c, c13TwoCase{Part: "two-names", Ops: ops})
+			}
+			k := n - 1
+			for k >= 0 {
+				idx[k]++
+				if idx[k] < len(alpha) {
+					break
+				}
+				idx[k] = 0
+				k--
+			}
+			if k < 0 {
+				break
+			}
+		}
+	}
+}
+
+// ---------------------------------------------------------------- D3: failing opens
+
+// c13OpenFaults: the environment answer "this open fails" (EMFILE, as when the
+// process is out of descriptors) injected at every open of every sequence of
+// <= 4 operations over three files written with > and >>, fflush and close. The
+// run may fail with an error; if it reports success, every file must hold
+// exactly what the destination rules say (> truncates once per open stream,
+// later writes append, >> never truncates): a name may not silently lose what
+// was written to it.
+type c13OpenCase struct {
+	Part   string   `json:"part"`
+	Ops    []string `json:"ops"`
+	FailAt int      `json:"fail_at"` // the k-th OpenFile call fails once (1-based)
+}
+
+func c13OpenEval(c *core.Ctx, cs c13OpenCase) (opens int) {
+	for _, f := range []string{"g1", "g2", "g3"} {
+		os.WriteFile(filepath.Join(c13Dir, f), []byte("old\n"), 0o644)
+	}
+	var b strings.Builder
+	want := map[string]string{"g1": "old\n", "g2": "old\n", "g3": "old\n"}
+	open := map[string]bool{}
+	b.WriteString("BEGIN {\n")
+	for i, op := range cs.Ops {
+		name := "g" + op[1:]
+		switch op[0] {
+		case 'w': // print > name
+			fmt.Fprintf(&b, "  print \"W%d\" > \"%s\"\n", i, name)
+			if !open[name] {
+				want[name] = ""
+				open[name] = true
+			}
+			want[name] += fmt.Sprintf("W%d\n", i)
+		case 'a': // print >> name
+			fmt.Fprintf(&b, "  print \"A%d\" >> \"%s\"\n", i, name)
+			open[name] = true
+			want[name] += fmt.Sprintf("A%d\n", i)
+		case 'c':
+			fmt.Fprintf(&b, "  close(\"%s\")\n", name)
+			delete(open, name)
+		case 'f':
+			b.WriteString("  fflush()\n")
+		}
+	}
+	b.WriteString("}\n")
+	prog := awk.MustParse(b.String(), nil)
+	old, _ := os.Getwd()
+	os.Chdir(c13Dir)
+	calls := 0
+	injected := false
+	res := awk.Exec(prog, &interp.Config{Stdin: strings.NewReader(""), OpenFile: func(name string, flag int, perm os.FileMode) (*os.File, error) {
+		calls++
+		if calls == cs.FailAt {
+			injected = true
+			return nil, &os.PathError{Op: "open", Path: name, Err: syscall.EMFILE}
+		}
+		return os.OpenFile(name, flag, perm)
+	}})
+	os.Chdir(old)
+	c.Eval(1)
+	c.Add("transitions", 1)
+	if res.Panic != "" {
+		c.Fail("D3:panic", cs, firstLine(res.Panic))
+		return calls
+	}
+	c.Outcome(fmt.Sprintf("open-fault %v %v", injected, res.Err != nil))
+	if res.Err != nil {
+		if !injected {
+			c.Fail("D3:run-failed-without-fault", cs, res.Err.Error())
+		}
+		return calls // a failed open may end the run with an error
+	}
+	for _, f := range []string{"g1", "g2", "g3"} {
+		data, _ := os.ReadFile(filepath.Join(c13Dir, f))
+		if string(data) != want[f] {
+			sig := "D3:file-content-after-failed-open"
+			if !injected {
+				sig = "D3:file-content"
+			}
+			c.Fail(sig, cs, fmt.Sprintf("run reported success; file %s = %q, want %q; program:\n%s", f, string(data), want[f], b.String()))
+			return calls
+		}
+	}
+	return calls
+}
+
+func c13OpenFaults(c *core.Ctx) {
+	alpha := []string{"w1", "w2", "w3", "a1", "a2", "c1", "c2", "f0"}
+	maxLen := 4
+	if c.Thorough() {
+		maxLen = 5
+	}
+	for n := 1; n <= maxLen; n++ {
+		idx := make([]int, n)
+		for {
+			if c.Mine() && !c.Expired() {
+				ops := make([]string, n)
+				for i, k := range idx {
+					ops[i] = alpha[k]
+				}
+				c.Add("states", 1)
+				opens := c13OpenEval(c, c13OpenCase{Part: "open-fault", Ops: ops, FailAt: 0})
+				for k := 1; k <= opens; k++ {
+					c13OpenEval(c, c13OpenCase{Part: "open-fault", Ops: ops, FailAt: k})
+				}
 			}
 			k := n - 1
 			for k >= 0 {
@@ -1060,6 +1184,10 @@ func c13Replay(c *core.Ctx, raw json.RawMessage) {
 	switch cs.Part {
 	case "two-names":
 		c13TwoEval(c, c13TwoCase{Part: cs.Part, Ops: cs.Ops})
+	case "open-fault":
+		var oc c13OpenCase
+		json.Unmarshal(raw, &oc)
+		c13OpenEval(c, oc)
 	case "X", "S", "R":
 		m := c13Expect(cs.Ops)
 		c13Reuse = cs.Part == "R"
@@ -1110,6 +1238,7 @@ func init() {
 		Rule: "X: every sequence of <=3 (thorough <=4) operations over 17 kinds (print/printf to stdout, > file, >> file, | two commands, close, fflush, system, cmd|getline, getline<file, exit status of closed commands, exit, run-time error) run on the real interpreter over virtual processes, with unbuffered and bufio-wrapped Config.Output, against a destination model (state = one sequence); R: every such sequence without commands again as the second Execute of a reused Interpreter (files put back in between), judged by the same model; " +
 			"S: for sequences with a child sharing stdout, every schedule of program/child/copy threads with up to 2 (thorough 3; one less for the longest sequences) deviations from the default scheduler (a preemption or a non-default pick at a blocking point) under a cooperative scheduler where each Write to Config.Output is a two-event critical section (transition = one schedule); " +
 			"D2: one file appended to (>>) through two names and by a real child in turn, every sequence of <=4 operations over {>> f2, >> ./f2, fflush, close either, system(echo >> f2)}: old content plus every line exactly once; " +
+			"D3: every sequence of <=4 (thorough 5) operations over {> three files, >> two files, close, fflush} with the k-th open failing once with EMFILE for every k (through Config.OpenFile): the run fails, or every file holds what the destination rules say; " +
 			"D: a write failure at every byte offset of stdout for 11 output paths x {unbuffered, bufio}, plus the CLI with stdout=/dev/full; distinct = distinct stdout/file observations",
 		Assumptions: []string{
 			"child processes and os/exec are replaced by the vexec model (scripted processes, bounded in-memory pipes, a copy thread for a non-*os.File Stdout exactly as os/exec does); kernel pipe buffering is not modelled",
